@@ -81,11 +81,9 @@ class Dy:
     def to_float(self):
         """correctly rounded doubles"""
         den = 1 << self.shift
-        out = np.empty(self.ints.shape, dtype=float)
-        flat_o = out.ravel()
-        for i, v in enumerate(np.asarray(self.ints, dtype=object).ravel()):
-            flat_o[i] = _ratio_to_float(int(v), den)
-        return out
+        ints = np.asarray(self.ints, dtype=object)
+        vals = [_ratio_to_float(int(v), den) for v in ints.ravel()]
+        return np.array(vals, dtype=float).reshape(ints.shape)
 
     def fractions(self):
         den = 1 << self.shift
